@@ -68,6 +68,26 @@ REDIR_DENY := strtok rand srand random srandom strerror asctime ctime gmtime loc
               getpwnam getpwuid getgrnam getgrgid setlocale ttyname getenv \
               time clock_gettime gettimeofday getpid
 redir = $(foreach s,$(1),--redefine-sym $(s)=sim_$(s))
+# more MT-Unsafe libc functions: generic recording trampolines (no signature needed)
+MT_UNSAFE := $(shell grep -v '^\#' $(SIM)/mt_unsafe.txt)
+$(GEN)/deny_stubs.S: $(SIM)/mt_unsafe.txt $(V)/Makefile $(GEN)/.dir
+	@{ echo '/* generated from sim/mt_unsafe.txt */'; echo '.text'; \
+	for f in $(MT_UNSAFE); do \
+	  echo ".globl simd_$$f"; echo ".type simd_$$f,@function"; echo "simd_$$f:"; \
+	  echo "  push %rbp; mov %rsp,%rbp; push %rdi; push %rsi; push %rdx; push %rcx; push %r8; push %r9; push %rax; push %r10"; \
+	  echo "  sub \$$128,%rsp; movdqu %xmm0,(%rsp); movdqu %xmm1,16(%rsp); movdqu %xmm2,32(%rsp); movdqu %xmm3,48(%rsp); movdqu %xmm4,64(%rsp); movdqu %xmm5,80(%rsp); movdqu %xmm6,96(%rsp); movdqu %xmm7,112(%rsp)"; \
+	  echo "  lea .Lname_$$f(%rip),%rdi; call deny_reached_c@PLT"; \
+	  echo "  movdqu (%rsp),%xmm0; movdqu 16(%rsp),%xmm1; movdqu 32(%rsp),%xmm2; movdqu 48(%rsp),%xmm3; movdqu 64(%rsp),%xmm4; movdqu 80(%rsp),%xmm5; movdqu 96(%rsp),%xmm6; movdqu 112(%rsp),%xmm7; add \$$128,%rsp"; \
+	  echo "  pop %r10; pop %rax; pop %r9; pop %r8; pop %rcx; pop %rdx; pop %rsi; pop %rdi; pop %rbp"; \
+	  echo "  .weak $$f"; echo "  jmp *$$f@GOTPCREL(%rip)"; \
+	  echo ".section .rodata"; echo ".Lname_$$f: .asciz \"$$f\""; echo ".text"; \
+	done; echo '.section .note.GNU-stack,"",@progbits'; } > $@
+$(B)/h/deny_stubs.o: $(GEN)/deny_stubs.S
+	$(CLANG) -c $< -o $@
+redir_deny2 = $(foreach s,$(MT_UNSAFE),--redefine-sym $(s)=simd_$(s))
+# crypt()'s function-local static object gets one global name whatever the compiler called it
+STATICOBJ_clang := --redefine-sym _crypt_crypt.nr_crypt_ctx=sim_static_crypt_ctx --globalize-symbol=sim_static_crypt_ctx
+STATICOBJ_gcc   := --redefine-sym nr_crypt_ctx.0=sim_static_crypt_ctx --globalize-symbol=sim_static_crypt_ctx
 # the library's writable static state goes into its own output sections so that the
 # executor can put it back to its initial value before every run (one run = one plan)
 LIBSTATE := --rename-section .data=libdata --rename-section .bss=libbss --rename-section .data.rel.local=libdata
@@ -76,7 +96,7 @@ LIBSTATE := --rename-section .data=libdata --rename-section .bss=libbss --rename
 define LIBRULE
 $(B)/$(1)/%.o: $(REPO)/lib/%.c $(GENHDR) $(REPO)/config.h $(V)/Makefile
 	@mkdir -p $$(dir $$@); echo CC[$(1)] $$(notdir $$<); $(2) $(LIBCPP) -MMD -MP -MT $$@ -MF $$@.d -c $$< -o $$@.raw.o
-	@$(OBJCOPY) $(3) $(4) --globalize-symbol=nr_encrypt_ctx $$@.raw.o $$@
+	@$(OBJCOPY) $(3) $(4) $(if $(3),$(redir_deny2)) --globalize-symbol=nr_encrypt_ctx $$@.raw.o $$@
 $(1)_LIBOBJ := $(addprefix $(B)/$(1)/,$(addsuffix .o,$(LIBBASE)))
 -include $(addprefix $(B)/$(1)/,$(addsuffix .o.d,$(LIBBASE)))
 endef
@@ -89,9 +109,9 @@ REF_FLAGS  := -O2 -g
 $(eval $(call LIBRULE,asan,$(CLANG) $(ASAN_FLAGS),$(call redir,$(REDIR_MEM) $(REDIR_DENY)),$(LIBSTATE)))
 # same as asan, failure-token option flipped relative to the shipped configuration (C05, second engine)
 FLIPTOK := $(if $(filter 1,$(FAILTOK)),0,1)
-$(eval $(call LIBRULE,asanft,$(CLANG) $(ASAN_FLAGS) -I$(SIM)/ntcfg -DREPO_CONFIG_H='"$(REPO)/config.h"' -DSIM_FLIPPED_FAILTOK=$(FLIPTOK),$(call redir,$(REDIR_MEM) $(REDIR_DENY)),$(LIBSTATE)))
-$(eval $(call LIBRULE,thr,$(CLANG) $(THR_FLAGS),$(call redir,$(REDIR_MEM) $(REDIR_THR) $(REDIR_DENY)),$(LIBSTATE)))
-$(eval $(call LIBRULE,O0,$(GCC) $(O0_FLAGS),$(call redir,$(REDIR_MEM) $(REDIR_DENY)),$(LIBSTATE)))
+$(eval $(call LIBRULE,asanft,$(CLANG) $(ASAN_FLAGS) -I$(SIM)/ntcfg -DREPO_CONFIG_H='"$(REPO)/config.h"' -DSIM_FLIPPED_FAILTOK=$(FLIPTOK),$(call redir,$(REDIR_MEM) $(REDIR_DENY)),$(LIBSTATE) $(STATICOBJ_clang)))
+$(eval $(call LIBRULE,thr,$(CLANG) $(THR_FLAGS),$(call redir,$(REDIR_MEM) $(REDIR_THR) $(REDIR_DENY)),$(LIBSTATE) $(STATICOBJ_clang)))
+$(eval $(call LIBRULE,O0,$(GCC) $(O0_FLAGS),$(call redir,$(REDIR_MEM) $(REDIR_DENY)),$(LIBSTATE) $(STATICOBJ_gcc)))
 $(eval $(call LIBRULE,ref,$(CLANG) $(REF_FLAGS),,))
 
 # ---- harness
@@ -120,14 +140,14 @@ $(eval $(call HRULE,thr,$(CLANGXX) -DSIM_THR -O2 -g -fno-omit-frame-pointer))
 $(eval $(call HRULE,O0,$(GXX) -DSIM_O0 -O1 -g))
 $(eval $(call HRULE,rng,$(CLANGXX) -DSIM_ASAN -DSIM_RNG -O1 -g -fno-omit-frame-pointer -fsanitize=address))
 
-$(B)/simcrypt-asan: $(asan_HOBJ) $(asan_LIBOBJ) $(B)/h/prim-asan.o
-	$(CLANGXX) -fsanitize=address $(asan_HOBJ) $(B)/h/prim-asan.o $(asan_LIBOBJ) $(HLIBS) -o $@
-$(B)/simcrypt-asan-ft: $(asanft_HOBJ) $(asanft_LIBOBJ) $(B)/h/prim-asan.o
-	$(CLANGXX) -fsanitize=address $(asanft_HOBJ) $(B)/h/prim-asan.o $(asanft_LIBOBJ) $(HLIBS) -o $@
-$(B)/simcrypt-thr: $(thr_HOBJ) $(B)/h/thr/thr_rt.o $(thr_LIBOBJ) $(B)/h/prim-thr.o
-	$(CLANGXX) $(thr_HOBJ) $(B)/h/thr/thr_rt.o $(B)/h/prim-thr.o $(thr_LIBOBJ) $(HLIBS) -o $@
-$(B)/simcrypt-O0: $(O0_HOBJ) $(O0_LIBOBJ) $(B)/h/prim-O0.o
-	$(GXX) $(O0_HOBJ) $(B)/h/prim-O0.o $(O0_LIBOBJ) $(HLIBS) -o $@
+$(B)/simcrypt-asan: $(B)/h/deny_stubs.o $(asan_HOBJ) $(asan_LIBOBJ) $(B)/h/prim-asan.o
+	$(CLANGXX) -fsanitize=address $(asan_HOBJ) $(B)/h/prim-asan.o $(asan_LIBOBJ) $(B)/h/deny_stubs.o $(HLIBS) -o $@
+$(B)/simcrypt-asan-ft: $(B)/h/deny_stubs.o $(asanft_HOBJ) $(asanft_LIBOBJ) $(B)/h/prim-asan.o
+	$(CLANGXX) -fsanitize=address $(asanft_HOBJ) $(B)/h/prim-asan.o $(asanft_LIBOBJ) $(B)/h/deny_stubs.o $(HLIBS) -o $@
+$(B)/simcrypt-thr: $(B)/h/deny_stubs.o $(thr_HOBJ) $(B)/h/thr/thr_rt.o $(thr_LIBOBJ) $(B)/h/prim-thr.o
+	$(CLANGXX) $(thr_HOBJ) $(B)/h/thr/thr_rt.o $(B)/h/prim-thr.o $(thr_LIBOBJ) $(B)/h/deny_stubs.o $(HLIBS) -o $@
+$(B)/simcrypt-O0: $(B)/h/deny_stubs.o $(O0_HOBJ) $(O0_LIBOBJ) $(B)/h/prim-O0.o
+	$(GXX) $(O0_HOBJ) $(B)/h/prim-O0.o $(O0_LIBOBJ) $(B)/h/deny_stubs.o $(HLIBS) -o $@
 $(B)/refsrv: $(SIM)/refsrv.c $(ref_LIBOBJ) $(GENHDR)
 	$(CLANG) -O2 -g -I$(GEN) -I$(REPO) -I$(REPO)/lib $(SIM)/refsrv.c $(ref_LIBOBJ) -o $@
 
@@ -143,8 +163,8 @@ endef
 $(foreach v,$(RNGV),$(eval $(call RNGRULE,$(v))))
 RNGOBJ := $(foreach v,$(RNGV),$(B)/rng/grb$(v).o)
 RNG_LIBOBJ := $(filter-out $(B)/asan/util-get-random-bytes.o,$(asan_LIBOBJ))
-$(B)/rngsim: $(rng_HOBJ) $(B)/h/rng/rngdev.o $(RNGOBJ) $(RNG_LIBOBJ) $(B)/h/prim-asan.o
-	$(CLANGXX) -fsanitize=address $(rng_HOBJ) $(B)/h/rng/rngdev.o $(B)/h/prim-asan.o $(RNGOBJ) $(RNG_LIBOBJ) $(HLIBS) -o $@
+$(B)/rngsim: $(B)/h/deny_stubs.o $(rng_HOBJ) $(B)/h/rng/rngdev.o $(RNGOBJ) $(RNG_LIBOBJ) $(B)/h/prim-asan.o
+	$(CLANGXX) -fsanitize=address $(rng_HOBJ) $(B)/h/rng/rngdev.o $(B)/h/prim-asan.o $(RNGOBJ) $(RNG_LIBOBJ) $(B)/h/deny_stubs.o $(HLIBS) -o $@
 
 # ---- identity of the tree under test and its external surface
 $(B)/tree.sha: $(LIBSRC) $(wildcard $(REPO)/lib/*.h) $(REPO)/lib/hashes.conf $(REPO)/config.h $(GEN)/.dir
